@@ -40,7 +40,8 @@ PROBES = ["coin_credited", "coin_at_cap", "coin_crosses_cap", "tier_bonus", "tie
           "expiry_full", "expiry_frac", "op_on_expiry_deadline", "coin_ties_with_expiry", "redundant_enable_credit",
           "redundant_enable_free", "toggle_to_free", "toggle_to_credit", "coin_in_free_play", "free_game",
           "slam_tilt", "credits_reset", "earnings_reset", "reboot_kept", "reboot_dropped", "ops_same_iteration",
-          "start_pair_same_iteration", "expiry_during_game", "coin_during_game", "boot_free_then_credit"]
+          "start_pair_same_iteration", "expiry_during_game", "coin_during_game", "boot_free_then_credit",
+          "game_without_player"]
 REAL = ["mpf.modes.credits.code.credits.Credits", "mpf.modes.game.code.game.Game", "mpf.modes.attract.code.attract.Attract",
         "mpf.core.machine_vars.MachineVariables", "mpf.core.settings_controller.SettingsController",
         "mpf.core.switch_controller.SwitchController", "mpf.core.events.EventManager", "mpf.core.delays.DelayManager",
